@@ -9,6 +9,8 @@ case:  [X] <backend> <ttl0,ttl1,…> <event>…        backend ∈ memory redis 
   look:<n>:<tid>  rem:<n>:<tid>  end:<n>:<tid>  adv:<ms>  advw:<ms>  advs:<ms>  rega:<n>:<nid>:<addr>  geta:<n>:<nid>
   poll:<n>:<tid>:<k>  the polling lookup of node n runs its first k polls (obs found:… | pending | estore)
   pend:<n>:<tid>      it runs one more poll, then its context ends (obs found:… | ptimeout | estore)
+  slook:<n>:<tid>     a lookup of node n starts, the store answers its Get, the reply is held back (obs pending | eparam)
+  send:<n>:<tid>      the held reply arrives, that lookup completes (obs as look | skip when none is in flight)
   restart:<n>         node n loses all in-process state (bridges, node-local cache)
   fwd:<n>:<tid>     a target connection for <tid> arrives on node n: lookup, then CreateDedicatedConnection (obs fwd:<src>:<addr> | enoaddr)
 obs:   one token per event:
@@ -56,6 +58,8 @@ def parseEv (tok : String) : Option Ev :=
   | ["poll", n, tid, k] => do pure (.pollStart (← n.toNat?) (← strOfHex tid) (← k.toNat?))
   | ["pend", n, tid] => do pure (.pollEnd (← n.toNat?) (← strOfHex tid))
   | ["restart", n] => do pure (.restart (← n.toNat?))
+  | ["slook", n, tid] => do pure (.slowBegin (← n.toNat?) (← strOfHex tid))
+  | ["send", n, tid] => do pure (.slowEnd (← n.toNat?) (← strOfHex tid))
   | _ => none
 
 def parseCase : List String → Option (Cfg × List Ev)
